@@ -114,13 +114,14 @@ type binst struct {
 	dir string
 	m   *routing.BFDManager
 
-	run     string // fresh | running | stopped
-	frr     map[int]*frrPeer
-	flags   map[string]bool
-	held    bool
-	heldSnp []string
-	heldOK  bool
-	logPos  int64
+	run       string // fresh | running | stopped
+	frr       map[int]*frrPeer
+	flags     map[string]bool
+	held      bool
+	heldSnp   []string
+	heldOK    bool
+	logPos    int64
+	lastFetch time.Time // end of the last step in which a status fetch started
 
 	mu  sync.Mutex
 	cbs []cbRec
@@ -154,6 +155,7 @@ func (s *BSystem) New() core.Instance {
 		synctest.Wait()
 		in.readLog() // discard
 		in.cbs = nil
+		in.lastFetch = time.Now()
 	}
 	return in
 }
@@ -472,6 +474,9 @@ func (in *binst) Apply(ev core.Event) map[string]any {
 			in.applyTold(t)
 		}
 	}
+	if fetches > 0 {
+		in.lastFetch = time.Now()
+	}
 	// every fetch of this step that is not the held one completed within the step with the fresh table
 	nfresh := fetches
 	if in.held && op == "poll_begin" {
@@ -528,7 +533,16 @@ func (in *binst) Fingerprint() string {
 	if in.held {
 		hs = strings.Join(in.heldSnp, ",")
 	}
-	return core.Fingerprint(in.m, bfdFP) + fmt.Sprintf("|run=%s|frr=%v|flags=%v|held=%t:%s", in.run, fr, fl, in.held, hs)
+	// the monitor loop's ticker cannot be inspected; what the harness can see of its phase is for how many whole
+	// intervals no status fetch has started (always 0 for a loop that polls every MonitorInterval)
+	age := 0
+	if in.run == "running" {
+		age = int(time.Since(in.lastFetch) / Interval)
+		if age > 3 {
+			age = 3
+		}
+	}
+	return core.Fingerprint(in.m, bfdFP) + fmt.Sprintf("|run=%s|frr=%v|flags=%v|held=%t:%s|quiet=%d", in.run, fr, fl, in.held, hs, age)
 }
 
 func (in *binst) Probe() map[string]any { return nil }
